@@ -316,6 +316,27 @@ def oracle_c06(r, an, info, rng):
                 out.append(("relabel:f", "relabelling fs by a does not multiply the frequencies by a"))
             elif not (close(r3.ENBW, a * r.ENBW, rtol=1e-12) and ok(r3.Gxx, r.Gxx / a, sx / a)):
                 out.append(("relabel:density", "relabelling fs by a does not scale ENBW by a / densities by 1/a"))
+    # the calibrated quantities are the same before and after the error bars (and the export) have been read from the same result
+    with np.errstate(all="ignore"):
+        if info["which"] != "single":
+            r = an.compute()          # a fresh result object: nothing has been read from it yet
+        base = ["Gxx", "Gyy", "ENBW"] + (["Gxy", "cs", "Hxy", "coh"] if r.iscsd else ["psd", "asd", "ps", "G"])
+        before = {nm: np.array(getattr(r, nm), copy=True) for nm in base if getattr(r, nm) is not None}
+        for nm in ["Gxx_dev", "Gyy_dev", "Gxx_error", "Gyy_error"] + (["Gxy_dev", "Gxy_error", "Hxy_dev", "coh_dev", "coh_error"] if r.iscsd else []):
+            try:
+                getattr(r, nm)
+            except AttributeError:
+                pass
+        try:
+            r.to_dataframe()
+        except Exception:
+            pass
+        for nm, v0 in before.items():
+            v1 = np.asarray(getattr(r, nm))
+            if not np.array_equal(v0, v1, equal_nan=True):
+                j1 = int(np.nonzero(~((v0 == v1) | (np.isnan(v0) & np.isnan(v1))))[0][0])
+                out.append(("stable:" + nm, "%s changes after the error bars have been read from the same result: %r -> %r at bin %d" % (nm, v0[j1], v1[j1], j1)))
+                break
     return out
 
 
